@@ -25,7 +25,7 @@ def semantics(progs):
 
 def make_spec(prog, sem, sched, name=None, **kw):
     s = {"name": name or prog["name"], "mro": mro.render(prog), "invs": sem["inv"],
-         "outs": sem["outs"], "sched": sched}
+         "outs": sem["outs"], "sched": sched, "weak": bool(sem.get("weak"))}
     s.update(kw)
     return s
 
